@@ -42,8 +42,10 @@ class C04(ExtBase):
 
     def mk(self, name, lens, paths, single=False, kind="hostile", pl=4):
         tok = self.tok()
-        paths = [p.replace(b"@ABS@", b"/tmp/rdvabs/" + tok.encode()) for p in paths]
-        name = name.replace(b"@ABS@", b"/tmp/rdvabs/" + tok.encode())
+        # @ABS@: an absolute path under the observed scratch root; @ABSREL@: the same without the leading '/', which is
+        # harmless as it stands and lands under the observed root if something turns it absolute
+        paths = [p.replace(b"@ABS@", b"/tmp/rdvabs/" + tok.encode()).replace(b"@ABSREL@", b"tmp/rdvabs/" + tok.encode()) for p in paths]
+        name = name.replace(b"@ABS@", b"/tmp/rdvabs/" + tok.encode()).replace(b"@ABSREL@", b"tmp/rdvabs/" + tok.encode())
         total = sum(lens)
         n = -(-total // pl)
         doc = torrent_doc(name, pl, list(zip(lens, paths)), n, single)
@@ -62,6 +64,9 @@ class C04(ExtBase):
                 self.mk(b"n", [3, 3], [b"a", b"./@ABS@/abs2"], kind="corpus"),
                 self.mk(b"./@ABS@/solo2", [5], [b"x"], single=True, kind="corpus"),
                 self.mk(b"n", [3, 3], [b"././/@ABS@/abs3", b"b"], kind="corpus"),
+                self.mk(b"", [3, 3], [b"@ABSREL@/e1", b"@ABSREL@/e2"], kind="corpus"),      # empty name, multi-file
+                self.mk(b".", [3, 3], [b"@ABSREL@/e3", b"b"], kind="corpus"),
+                self.mk(b"@ABSREL@/solo3", [5], [b"x"], single=True, kind="corpus"),
                 self.mk(b"ok", [2, 2], [b"a", b"d/b"], kind="benign")]
 
     def gen(self, rng, tier):
@@ -81,6 +86,10 @@ class C04(ExtBase):
             elif r < 0.7:     # hostile name
                 name = composed(rng) if rng.random() < 0.3 else rng.choice(HOSTILE_REL + [b"@ABS@/nm", b"@ABS@"])
                 kind = "hostile-name"
+            elif r < 0.76:    # degenerate name with paths that become hostile only if the join is done by hand
+                name = rng.choice([b"", b".", b"./", b"a/..", b"//"]) if rng.random() < 0.7 else b"n"
+                paths[rng.randrange(k)] = rng.choice([b"@ABSREL@/q", b"@ABSREL@/d/q", b"./@ABSREL@/q"])
+                kind = "hostile-join"
             elif r < 0.8:     # both
                 name = rng.choice(HOSTILE_REL)
                 paths[rng.randrange(k)] = rng.choice(HOSTILE_REL)
